@@ -57,6 +57,58 @@ def _key_of(eng, k, row):
     return None
 
 
+def _subst(c, mapping):
+    if c in mapping:
+        return mapping[c]
+    if isinstance(c, tuple):
+        return tuple(_subst(x, mapping) for x in c)
+    return c
+
+
+def _fold(c, colnames):
+    """resolve COLUMNi.name to its constant and merge adjacent literal parts of template strings"""
+    if isinstance(c, tuple):
+        if len(c) == 3 and c[0] == 'attr' and c[2] == 'name' and c[1] in colnames:
+            return colnames[c[1]]
+        c = tuple(_fold(x, colnames) for x in c)
+        if c and c[0] == 'fstr':
+            parts = []
+            for x in c[1:]:
+                if isinstance(x, str) and parts and isinstance(parts[-1], str):
+                    parts[-1] += x
+                else:
+                    parts.append(x)
+            return ('fstr', *parts)
+    return c
+
+
+def _foreach(c, colnames):
+    """sequence descriptions in one normal form: concat of literal runs and foreach(seq, body) blocks; a comprehension over
+    product(A, <enumerated B>) is foreach(A, [element with the B item substituted, for every B item])"""
+    if not isinstance(c, tuple) or not c:
+        return c
+    if c[0] == 'concat':
+        parts = []
+        for x in c[1]:
+            y = _foreach(x, colnames)
+            parts.extend(y[1] if isinstance(y, tuple) and y and y[0] == 'concat' else [y])
+        return ('concat', tuple(parts))
+    if c[0] == 'each' and not c[3] and not c[4]:
+        seq, elt = c[1], c[2]
+        if isinstance(seq, tuple) and seq[0] == 'call' and str(seq[1]).endswith('product') and len(seq[2]) == 2 and \
+                isinstance(seq[2][1], tuple) and seq[2][1] and seq[2][1][0] in ('tuple', 'L'):
+            a, b = seq[2]
+            items = b[1:] if b[0] == 'tuple' else b[1]
+            body = tuple(_fold(_subst(elt, {('elem', seq, (0,)): ('elem', a), ('elem', seq, (1,)): x}), colnames) for x in items)
+            return ('foreach', a, (('L', body),))
+        return ('foreach', seq, (('L', (_fold(elt, colnames),)),))
+    if c[0] == 'foreach':
+        return ('foreach', c[1], tuple(_foreach(x, colnames) for x in c[2]))
+    if c[0] == 'L':
+        return ('L', tuple(_fold(x, colnames) for x in c[1]))
+    return c
+
+
 def rule_pivotshape_deep(P):
     return rule_pivotshape(P, deep=True)
 
@@ -152,15 +204,14 @@ def rule_pivotshape(P, deep=False) -> RuleResult:
             cK = canon(KEYS)
             # --- names
             lead = f'c{col1}/c{col2}'
+            colnames = {canon(cols[i]): f'c{i}' for i in range(ncols)}
             if nother > 1:
-                prod = ('call', 'itertools.product', (cK, canon(T('tuple', tuple(cols[i] for i in others)))), ())
-                el = ('elem', prod)
-                blocks = ('each', prod, canon(T('fstr', (T('elem', (Sym('X'), (0,))), '/', T('attr', (T('elem', (Sym('X'), (1,))), 'name'))))), (), False)
-                # rebuild with the real sequence term
-                blocks = ('each', prod, ('fstr', ('elem', prod, (0,)), '/', ('attr', ('elem', prod, (1,)), 'name')), (), False)
+                body = tuple(('fstr', ('elem', cK), f'/c{i}') for i in others)
             else:
-                blocks = ('each', cK, ('fstr', ('elem', cK)), (), False)
+                body = (('fstr', ('elem', cK)),)
+            blocks = ('foreach', cK, (('L', body),))
             want_names = ('concat', (('L', (lead,)), blocks))
+            key_only = ('foreach', cK, (('L', (('fstr', ('elem', cK)),)),))
             want_types = ('concat', (('L', (Sym(f'DTYPE{col1}'),)), ('rep', ('L', tuple(Sym(f'DTYPE{i}') for i in others)), ('call', 'len', (cK,), ()))))
             # the columns: tuple(Column(name, datatype) for name, datatype in zip(names, datatypes))
             c = canon(out_cols)
@@ -170,6 +221,7 @@ def rule_pivotshape(P, deep=False) -> RuleResult:
                 if seq[0] == 'call' and seq[1] == 'zip' and len(seq[2]) == 2 and not conds and \
                         elt == ('call', 'Column', (('elem', seq, (0,)), ('elem', seq, (1,))), ()):
                     names_c, types_c = seq[2]
+                    names_c = _foreach(names_c, colnames)
             if names_c is None:
                 fail('columns', f'{label}: the result columns must be Column(name, datatype) for the names and datatypes pairwise; '
                      f'found `{show(out_cols)[:140]}`')
@@ -180,14 +232,14 @@ def rule_pivotshape(P, deep=False) -> RuleResult:
                     fail('lead-name', f'{label}: the leading column is named first/second (`{lead}`); found `{got_lead}`')
                 elif nother > 1:
                     # the wrong regime or the wrong order of the product
-                    if names_c[1][1:] == (('each', cK, ('fstr', ('elem', cK)), (), False),):
+                    if names_c[0] == 'concat' and names_c[1][1:] == (key_only,):
                         fail('names-switch', f'{label}: value/column names apply exactly when more than one column remains; here {nother} '
                              f'remain and the blocks are named by the key alone')
                     else:
                         fail('names-many', f'{label}: with several remaining columns the blocks are named value/column, key-major '
                              f'(product(keys, remaining columns)); found `{names_c[1][1:]}`'[:400])
                 else:
-                    if len(names_c[1]) > 1 and names_c[1][1][0] == 'each' and names_c[1][1][1][0] == 'call' and 'product' in str(names_c[1][1][1][1]):
+                    if names_c[0] == 'concat' and len(names_c[1]) > 1 and names_c[1][1][0] == 'foreach' and names_c[1][1] != key_only:
                         fail('names-switch', f'{label}: with one remaining column each block is named by its key value alone; the '
                              f'value/column regime is applied')
                     else:
@@ -237,7 +289,10 @@ def rule_pivotshape(P, deep=False) -> RuleResult:
                 continue
             outrow = stores[0][1].args[0]
             want_fill = ('concat', (('L', (canon(field1),)), ('rep', ('L', (None,)), ('bin', '-', ('call', 'len', (canon(out_cols),), ()), 1))))
-            if canon(outrow) != want_fill:
+            n_cols = ('call', 'len', (canon(out_cols),), ())
+            slot0 = [e for d, e in inner if e[0] == 'store' and isinstance(e[1], T) and e[1].op == 'item' and e[1].args == (outrow, 0)]
+            alt_fill = canon(outrow) == ('rep', ('L', (None,)), n_cols) and len(slot0) == 1 and slot0[0][2] == field1
+            if canon(outrow) != want_fill and not alt_fill:
                 fail('fill', f'{label}: missing combinations are NULL: the output row starts as [first value] + [None] * (columns - 1); '
                      f'found `{show(outrow)[:140]}`')
                 continue
